@@ -157,6 +157,15 @@ class EditMachine(ohist.Machine):
                 out.append(("ch_pop",))
         elif t == R.T_CALIB:
             out += [("value", 0), ("value", 1), ("map", 0)]
+        # requests the block must refuse: afterwards it has to be exactly what it was
+        if t in (R.T_DATA3D, R.T_FORCE3D):
+            out += [("refuse", "add-wrong-length"), ("refuse", "assign-good-then-bad")]
+        elif t == R.T_EMG:
+            out += [("refuse", "add-wrong-length"), ("refuse", "add-taken-channel"), ("refuse", "add-wrong-length-explicit-channel")]
+        elif t == R.T_PLATDATA:
+            out += [("refuse", "add-taken-channel"), ("refuse", "assign-good-then-bad")]
+        elif t == R.T_PLATCAL:
+            out += [("refuse", "add-taken-channel"), ("refuse", "assign-duplicate-channel"), ("refuse", "bulk-add-good-then-bad")]
         return out
 
     def describe(self, op):
@@ -241,6 +250,9 @@ class EditMachine(ohist.Machine):
                 vals = [4.0, 5.0, 6.0] if kind == "values_list" else [7.5, 8.5]
                 items_s[i]["values"] = np.array(vals, "<f4")
                 items_l[i].values = list(vals) if kind == "values_list" else np.array(vals, "<f8")
+            elif kind == "refuse":
+                self._refused(b, sp, op[1])
+                return self._observed(b), {"spec": copy.deepcopy(model["spec"]), "prev": model["prev"]}
             elif kind == "ev_append":
                 e = gen.mk_event(f"n{len(items_s)}", 1, 1, 20 + len(items_s))
                 sp["events"].append(e)
@@ -257,11 +269,77 @@ class EditMachine(ohist.Machine):
                 b.channels.pop(0)
             else:
                 raise ValueError(op)
-        except core.Violation:
+        except (core.Violation, ohist.Prune):
             raise
         except Exception as e:  # noqa: BLE001
             raise core.HarnessError(f"edit {op} not applicable to {self.name}: {type(e).__name__}: {e}")
         return self._observed(b), {"spec": sp, "prev": prev}
+
+    def _refused(self, b, sp, what):
+        """Issue a request that must be refused.  If it is accepted the branch is pruned (C15 / C16 judge
+        acceptance); if it raises, the model stays as it is and the oracle checks nothing was left behind."""
+        t = self.t
+        items = spec_items(sp)
+        n = sp.get("nFrames", sp.get("nSamples", NF))
+        chans = [c for c, _ in sp["items"]] if "items" in sp else []
+
+        def item(frames, salt=40):
+            proto = {R.T_DATA3D: gen.mk_track3d, R.T_EMG: gen.mk_emgsig, R.T_FORCE3D: gen.mk_ftrack}.get(t)
+            if proto:
+                return specs.build_item(t, proto(frames, tuple([True] * frames), "rf", salt), sp)
+            if t == R.T_PLATDATA:
+                return specs.build_item(t, gen.mk_plat(frames, tuple([True] * frames), salt), sp)
+            return specs.build_item(t, gen.mk_platinfo("rf", salt), sp)
+
+        try:
+            if what == "add-wrong-length":
+                (b.addSignal if t == R.T_EMG else b.add_track)(item(n + 1))
+            elif what == "add-wrong-length-explicit-channel":
+                b.addSignal(item(n + 1), channel=max(chans + [0]) + 3)
+            elif what == "add-taken-channel":
+                if not chans:
+                    raise ohist.Prune()
+                if t == R.T_EMG:
+                    b.addSignal(item(n), channel=chans[0])
+                else:
+                    b.add_platform(item(n), chans[0])
+            elif what == "assign-good-then-bad":
+                if t == R.T_PLATDATA:
+                    b.platforms = [item(n), "not a platform"]
+                else:
+                    b.tracks = [item(n), item(n + 1)]
+            elif what == "assign-duplicate-channel":
+                b.platforms = [(7, item(n)), (7, item(n, 41))]
+            elif what == "bulk-add-good-then-bad":
+                b.add_platforms([item(n), "not a platform"])
+            else:
+                raise ValueError(what)
+        except ohist.Prune:
+            raise
+        except Exception:  # noqa: BLE001 - refused, as it must be
+            partial = what in ("assign-good-then-bad", "assign-duplicate-channel", "bulk-add-good-then-bad") and t in (R.T_PLATDATA, R.T_PLATCAL)
+        else:
+            raise ohist.Prune()      # accepted: the model cannot follow (C15 / C16 judge acceptance)
+        if partial:
+            # what a half-done bulk operation leaves behind is not specified (C15): only well-formedness is
+            # judged here, then the branch is left
+            if not self._consistent_after_partial(b):
+                raise self.V(self.clauses[0], "refused-bulk-op-left-block-inconsistent",
+                             f"{gen.spec_label(sp)}: after the refused '{what}' the block's item list and channel list are out of step "
+                             f"(declared size != written size, or it cannot be encoded)")
+            raise ohist.Prune()
+
+    def _consistent_after_partial(self, b):
+        """Well-formed = declared size == written size, and the bytes parse to the end as one block of
+        this kind (as many channels as items) with the reference layout."""
+        try:
+            data = specs.lib_encode(b)
+            if int(b.nBytes) != len(data):
+                return False
+            sp, used, _ = R.decode_block(self.t, start_spec(self.t)["format"], data)
+            return used == len(data) and len(spec_items(sp)) == len(lib_items(b, self.t))
+        except Exception:  # noqa: BLE001
+            return False
 
     # ---- oracle: indistinguishable from a fresh block built from the model
     def observe(self, b, model, hist):
